@@ -135,8 +135,8 @@ def run(res, tier, seed):
         log = "[" + "; ".join("ERecv (WSender %d) (MUser %d); EUpdate (MUser %d) None" % (sender_of.get(t, 999), t, t) for t in upd_tags) + "]"
         must = "[" + "; ".join(str(t) for t in sorted(done)) + "]"
         rows.append("(%d, %s, %s, %s, %s)" % (i, scripts, log, must, "true" if c["mode"] == "complete" else "false"))
-    body = ["Definition rows : list (nat * list (list msg) * list ev * list nat * bool) := [%s]." % ";\n ".join(rows),
-            "Definition upd_tags (log : list ev) : list nat := flat_map (fun e => match e with EUpdate (MUser t) _ => [t] | _ => [] end) log.",
+    rows_def = "Definition rows : list (nat * list (list msg) * list ev * list nat * bool) := [%s]."
+    body = ["Definition upd_tags (log : list ev) : list nat := flat_map (fun e => match e with EUpdate (MUser t) _ => [t] | _ => [] end) log.",
             # per-sender order + nothing invented: what was taken from sender i is a prefix of its script (complete: all of it)
             "Definition row_ok (x : nat * list (list msg) * list ev * list nat * bool) : bool := let '(_, scripts, log, must, complete) := x in "
             "forallb (fun i => prefixb msg_eqb (recv_from (WSender i) log) (nth i scripts [])) (seq 0 (length scripts)) && "
@@ -145,8 +145,7 @@ def run(res, tier, seed):
             "forallb (fun t => existsb (fun l => existsb (fun m => msg_eqb m (MUser t)) l) scripts) (upd_tags log).",
             "Definition bad := map (fun x => fst (fst (fst (fst x)))) (filter (fun x => negb (row_ok x)) rows)."]
     pre = PRE + "Fixpoint NoDup_b (l : list nat) : bool := match l with [] => true | x :: t => negb (existsb (Nat.eqb x) t) && NoDup_b t end.\n"
-    vals, _ = C.coq_eval("cases_C01", pre, body, ["bad"], timeout=1500)
-    bad = C.parse_nat_list(C.parse_coq_value(vals["bad"]))
+    bad, _ = C.coq_eval_sharded("cases_C01", pre, rows, rows_def, body, "bad", shard=60)
     res.oblige("Spec on real logs (Coq: Spec.ConcSpec.per_sender_ok / updates_ok; exactly once, none invented, per-sender order), %d runs" % len(cases), not bad,
                [cases[i] for i in bad[:1]])
     res.oblige("Spec on real logs: Init/Update/View/filter never overlap, run on one goroutine, each Update gets the previous Update's model, Run returns the last", not py_bad,
